@@ -414,7 +414,14 @@ fn run_job(w: &mut Worker, job: &Job) -> ChunkEnd {
     }
 }
 
+/// latency-bound spaces (real sleeps, process spawns) may ask for more workers than cores
+pub static OVERSUBSCRIBE: std::sync::atomic::AtomicUsize = std::sync::atomic::AtomicUsize::new(1);
+
 pub fn jobs() -> usize {
+    base_jobs() * OVERSUBSCRIBE.load(Ordering::SeqCst)
+}
+
+fn base_jobs() -> usize {
     std::env::var("VERIF_JOBS")
         .ok()
         .and_then(|s| s.parse().ok())
